@@ -18,3 +18,114 @@ package auth
 //@   serves C10
 //@   opt frame true
 //@   ensures[exact] result == permitted(t, endpointID)
+
+// ---------------------------------------------------------------------------
+// Verifiers (C09, C10)
+
+//@ ghost gInnerUsed Verifier
+//@ ghost gInnerCalled bool
+//@ ghost gInnerErr error
+//@ ghost gInnerTok *Token
+
+//@ immutable MultiTenantVerifier.defaultVerifier MultiTenantVerifier.tenantVerifiers
+
+//@ iface (Verifier).Verify
+//@   modifies-all $gInnerUsed $gInnerCalled $gInnerErr $gInnerTok
+//@   ghost-set gInnerUsed = self
+//@   ghost-set gInnerCalled = true
+//@   ghost-set gInnerErr = result1
+//@   ghost-set gInnerTok = result0
+//@   ensures[token] result1 == nil ==> result0 != nil
+//@   ensures[no-token-on-error] result1 != nil ==> result0 == nil
+
+// A token is accepted only by the verifier of the tenant it names; with
+// tenants configured the default verifier is disabled.
+//@ contract (*MultiTenantVerifier).Verify
+//@   serves C10 C09
+//@   requires[fresh-step] !gInnerCalled
+//@   requires[env-default] v.defaultVerifier != nil
+//@   requires[env-tenants] forall t string :: t in v.tenantVerifiers ==> v.tenantVerifiers[t] != nil
+//@   ghost-set gVerified = true
+//@   ghost-set gVerifyErr = result1
+//@   ghost-set gVerifyTok = result0
+//@   ghost-set gVerifyArgTok = token
+//@   ghost-set gVerifyArgTenant = tenantID
+//@   ensures[default-disabled] tenantID == "" && len(v.tenantVerifiers) != 0 ==> result0 == nil && result1 == ErrUnknownTenant && !gInnerCalled
+//@   ensures[unknown-tenant] tenantID != "" && !(tenantID in v.tenantVerifiers) ==> result0 == nil && result1 == ErrUnknownTenant && !gInnerCalled
+//@   ensures[tenant-verifier] tenantID != "" && tenantID in v.tenantVerifiers ==> gInnerCalled && gInnerUsed == v.tenantVerifiers[tenantID] && result1 == gInnerErr
+//@   ensures[default-verifier] tenantID == "" && len(v.tenantVerifiers) == 0 ==> gInnerCalled && gInnerUsed == v.defaultVerifier && result1 == gInnerErr && result0 == gInnerTok
+//@   ensures[tenant-stamped] result1 == nil && tenantID != "" ==> result0 != nil && result0.TenantID == tenantID
+//@   ensures[same-token] result1 == nil ==> result0 != nil && result0 == gInnerTok
+//@   ensures[no-token-on-error] result1 != nil ==> result0 == nil
+
+// ---- JWTVerifier (C09, C16) ---------------------------------------------------
+//   gOptMethods/gOptMethodsVal, gOptAud/gOptAudVal, gOptIss/gOptIssVal   parser options created
+//   gParsed/gParseErr/gParseTok                                          the one jwt.ParseWithClaims call
+
+//@ ghost gOptMethods bool
+//@ ghost gOptMethodsVal []string
+//@ ghost gOptAud bool
+//@ ghost gOptAudVal []string
+//@ ghost gOptIss bool
+//@ ghost gOptIssVal string
+//@ ghost gParsed bool
+//@ ghost gParseErr error
+//@ ghost gParseTok *jwt.Token
+
+//@ pure-method github.com/golang-jwt/jwt/v5.SigningMethod.Alg
+//@ immutable JWTVerifier.hmacSecretKey JWTVerifier.rsaPublicKey JWTVerifier.ecdsaPublicKey JWTVerifier.keyFunc JWTVerifier.audience JWTVerifier.issuer JWTVerifier.disableDisconnectOnExpiry
+
+//@ extern github.com/golang-jwt/jwt/v5.WithValidMethods
+//@   modifies-all $gOptMethods $gOptMethodsVal
+//@   ghost-set gOptMethods = true
+//@   ghost-set gOptMethodsVal = methods
+//@ extern github.com/golang-jwt/jwt/v5.WithAudience
+//@   modifies-all $gOptAud $gOptAudVal
+//@   ghost-set gOptAud = true
+//@   ghost-set gOptAudVal = arg0
+//@ extern github.com/golang-jwt/jwt/v5.WithIssuer
+//@   modifies-all $gOptIss $gOptIssVal
+//@   ghost-set gOptIss = true
+//@   ghost-set gOptIssVal = iss
+//@ extern github.com/golang-jwt/jwt/v5.ParseWithClaims
+//@   modifies-all $gParsed $gParseErr $gParseTok JWTClaims.RegisteredClaims JWTClaims.Piko
+//@   ghost-set gParsed = true
+//@   ghost-set gParseErr = result1
+//@   ghost-set gParseTok = result0
+//@   ensures[env-token-or-error] result1 == nil ==> result0 != nil
+
+//@ pure hasMethod(v *JWTVerifier, m string) bool = exists i int :: 0 <= i && i < len(v.methods) && v.methods[i] == m
+
+//@ contract NewJWTVerifier
+//@   serves C09
+//@   requires[conf] conf != nil
+//@   opt frame true
+//@   ensures[fresh] result != nil && fresh(result)
+//@   ensures[hs] (hasMethod(result, "HS256") == (len(conf.HMACSecretKey) > 0)) && (hasMethod(result, "HS384") == (len(conf.HMACSecretKey) > 0)) && (hasMethod(result, "HS512") == (len(conf.HMACSecretKey) > 0))
+//@   ensures[rs] (hasMethod(result, "RS256") == (conf.RSAPublicKey != nil)) && (hasMethod(result, "RS384") == (conf.RSAPublicKey != nil)) && (hasMethod(result, "RS512") == (conf.RSAPublicKey != nil))
+//@   ensures[es] (hasMethod(result, "ES256") == (conf.ECDSAPublicKey != nil)) && (hasMethod(result, "ES384") == (conf.ECDSAPublicKey != nil)) && (hasMethod(result, "ES512") == (conf.ECDSAPublicKey != nil))
+//@   ensures[keys] result.hmacSecretKey == ((len(conf.HMACSecretKey) > 0) ? conf.HMACSecretKey : result.hmacSecretKey) && (conf.RSAPublicKey != nil ==> result.rsaPublicKey == conf.RSAPublicKey) && (conf.ECDSAPublicKey != nil ==> result.ecdsaPublicKey == conf.ECDSAPublicKey)
+//@   ensures[claims] result.audience == conf.Audience && result.issuer == conf.Issuer && result.disableDisconnectOnExpiry == conf.DisableDisconnectOnExpiry
+
+//@ contract (*JWTVerifier).Verify$1
+//@   serves C09
+//@   requires[token] token != nil && token.Method != nil && v != nil
+//@   let alg = token.Method.Alg()
+//@   ensures[family-hs] v.keyFunc == nil && (alg == "HS256" || alg == "HS384" || alg == "HS512") ==> result1 == nil && result0 == asIface(v.hmacSecretKey, "any")
+//@   ensures[family-rs] v.keyFunc == nil && (alg == "RS256" || alg == "RS384" || alg == "RS512") ==> result1 == nil && result0 == asIface(v.rsaPublicKey, "any")
+//@   ensures[family-es] v.keyFunc == nil && (alg == "ES256" || alg == "ES384" || alg == "ES512") ==> result1 == nil && result0 == asIface(v.ecdsaPublicKey, "any")
+//@   ensures[unsupported] v.keyFunc == nil && !(alg == "HS256" || alg == "HS384" || alg == "HS512" || alg == "RS256" || alg == "RS384" || alg == "RS512" || alg == "ES256" || alg == "ES384" || alg == "ES512") ==> result1 != nil
+
+//@ contract (*JWTVerifier).Verify
+//@   serves C09 C16
+//@   opt implements (Verifier).Verify
+//@   requires[fresh-step] !gOptMethods && !gOptAud && !gOptIss && !gParsed
+//@   ensures[parsed] gParsed
+//@   ensures[options] gOptMethods && gOptMethodsVal == v.methods && (gOptAud == (v.audience != "")) && (gOptAud ==> len(gOptAudVal) == 1 && gOptAudVal[0] == v.audience) && (gOptIss == (v.issuer != "")) && (gOptIss ==> gOptIssVal == v.issuer)
+//@   ensures[error-mapping] result1 != nil ==> result0 == nil && (result1 == ErrExpiredToken || result1 == ErrInvalidToken)
+//@   ensures[expired] gParseErr != nil && errIs(gParseErr, jwt.ErrTokenExpired) ==> result1 == ErrExpiredToken
+//@   ensures[rejects-invalid] gParseErr != nil || !gParseTok.Valid ==> result1 != nil
+//@   ensures[accepts-valid] gParseErr == nil && gParseTok.Valid ==> result1 == nil && result0 != nil
+//@   ensures[expiry-kept] result1 == nil && claims.ExpiresAt != nil && !v.disableDisconnectOnExpiry ==> result0.Expiry == claims.ExpiresAt.Time
+//@   ensures[expiry-dropped] result1 == nil && (claims.ExpiresAt == nil || v.disableDisconnectOnExpiry) ==> result0.Expiry.IsZero()
+//@   ensures[endpoints] result1 == nil ==> result0.Endpoints == claims.Piko.Endpoints
